@@ -66,7 +66,7 @@ static void get_wd(char *temp, int length, int reg, int attr, int reg2)
 
 static void get_prefetch(char *temp, int length, int w, int xx, int iiii)
 {
-  if (iiii == 0xc) { snprintf(temp, length, ", [w%d+12], w%d", w, xx + 4); return; }
+  if (iiii == 0xc) { snprintf(temp, length, ", [w%d+w12], w%d", w + 1, xx + 4); return; }
   if (iiii >= 8) { w++; iiii = iiii & 0x7; }
   if (iiii == 0) { snprintf(temp, length, ", [w%d], w%d", w, xx + 4); return; }
   if ((iiii & 0x4)!=0)
@@ -82,7 +82,7 @@ static void get_prefetch(char *temp, int length, int w, int xx, int iiii)
 
 static void get_prefetch_half(char *temp, int length, int w, int iiii)
 {
-  if (iiii == 0xc) { snprintf(temp, length, ", [w%d+12]", w); return; }
+  if (iiii == 0xc) { snprintf(temp, length, ", [w%d+w12]", w + 1); return; }
   if (iiii >= 8) { w++; iiii = iiii & 0x7; }
   if (iiii == 0) { snprintf(temp, length, ", [w%d]", w); return; }
   if ((iiii & 0x4) != 0)
